@@ -103,8 +103,8 @@ Ltac norm_hyps :=
   rewrite ?nf_of0, ?nf_of1 in *.
 Ltac reads := repeat (rewrite upd_same || rewrite upd_other by congruence).
 Ltac unfold_prims :=
-  cbn [do_scal do_axpy do_copy run_ps run_p fallback_scal fallback_axpy fallback_copy pid aug_fn pcval
-       blas_axpy blas_scal].
+  cbn [do_scal do_axpy do_copy do_fill run_ps run_p fallback_scal fallback_axpy fallback_copy pid aug_fn pcval
+       blas_axpy blas_scal bi_view bi_call].
 
 (* the outcome is Ok, [out] holds the entry-wise result (converted by [cast]) of
    the INITIAL operands, every other buffer is unchanged *)
@@ -119,10 +119,10 @@ Definition post {T} `{Num T} (cast : T -> T) (a : T) (i1 : nat) (b : T) (i2 : na
 Section DirectAny.
 Context {T : Type} `{Num T}.
 
-Lemma direct_exact (cast : T -> T) (fuel : nat) a b (i1 i2 io : nat) (s : store T) :
+Lemma direct_exact (cast : T -> T) (fuel : nat) (bi : blasinfo) a b (i1 i2 io : nat) (s : store T) :
   length (s i1) = length (s i2) ->
   post cast a i1 b i2 io s
-    (lincomb_fuel (S fuel) cast Direct {| e_a := a; e_b := b; e_x1 := i1; e_x2 := i2; e_out := io |} s).
+    (lincomb_fuel (S fuel) cast Direct bi {| e_a := a; e_b := b; e_x1 := i1; e_x2 := i2; e_out := io |} s).
 Proof.
   intros L12. unfold post.
   cbn [lincomb_fuel]. unfold direct_expr.
@@ -169,8 +169,7 @@ Ltac finish L12 Lo :=
   norm_hyps;
   first
   [ solve [exfalso; match goal with H : ~ (_ /\ _) |- _ => apply H; split; [reflexivity | assumption] end]
-  | unfold do_fill;
-    split; [ reads; rewrite map_id; pointwise L12 Lo; subst_scalars; rewrite ?nf_of0;
+  | split; [ reads; rewrite map_id; pointwise L12 Lo; subst_scalars; rewrite ?nf_of0;
              try (field; auto); try zero_is_one
            | intros j Hj; reads; reflexivity ] ].
 
@@ -182,13 +181,16 @@ Add Field Tfield : nf_field.
 Let idc : T -> T := fun u => u.
 
 (* every leaf of the tree that does not re-enter _lincomb_impl *)
-Lemma tree_no_rec (rc : env T -> store T -> outcome T) (r : regime) a b (i1 i2 io : nat) (s : store T) :
-  r <> Direct -> ~ (i1 = i2 /\ b <> nzero) ->
+Definition bi_ok (r : regime) (bi : blasinfo) : Prop :=
+  r = Blas -> bi_view bi = true /\ bi_call bi = true.
+
+Lemma tree_no_rec (rc : env T -> store T -> outcome T) (r : regime) (bi : blasinfo) a b (i1 i2 io : nat) (s : store T) :
+  r <> Direct -> bi_ok r bi -> ~ (i1 = i2 /\ b <> nzero) ->
   length (s i1) = length (s i2) -> length (s io) = length (s i1) ->
   post idc a i1 b i2 io s
-    (exec_list rc r {| e_a := a; e_b := b; e_x1 := i1; e_x2 := i2; e_out := io |} alias_tree s).
+    (exec_list rc r bi {| e_a := a; e_b := b; e_x1 := i1; e_x2 := i2; e_out := io |} alias_tree s).
 Proof.
-  intros Hr Hnr L12 Lo.
+  intros Hr Hbi Hnr L12 Lo.
   unfold post, alias_tree, idc.
   cbn [exec_list exec bind cval opnd sval e_a e_b e_x1 e_x2 e_out].
   destruct r; [congruence| |].
@@ -197,7 +199,8 @@ Proof.
     all: unfold_prims.
     all: use_eqs.
     all: finish L12 Lo.
-  - split_ids.
+  - destruct bi as [bv bc]. destruct (Hbi eq_refl) as [Hv Hc]. cbn in Hv, Hc. subst bv bc.
+    split_ids.
     all: repeat split_if.
     all: unfold_prims.
     all: use_eqs.
@@ -205,9 +208,9 @@ Proof.
 Qed.
 
 (* the leaf that re-enters: x1 is x2 and b != 0 *)
-Lemma tree_rec (rc : env T -> store T -> outcome T) (r : regime) a b (i1 io : nat) (s : store T) :
+Lemma tree_rec (rc : env T -> store T -> outcome T) (r : regime) (bi : blasinfo) a b (i1 io : nat) (s : store T) :
   b <> nzero ->
-  exec_list rc r {| e_a := a; e_b := b; e_x1 := i1; e_x2 := i1; e_out := io |} alias_tree s =
+  exec_list rc r bi {| e_a := a; e_b := b; e_x1 := i1; e_x2 := i1; e_out := io |} alias_tree s =
   bind (rc {| e_a := a + b; e_b := of_Z 0; e_x1 := i1; e_x2 := i1; e_out := io |} s) (fun s0 => Ok s0).
 Proof.
   intros Hb. unfold alias_tree.
@@ -224,52 +227,53 @@ Proof.
   destruct (nth_error x k); [f_equal; rewrite nf_of0; ring | reflexivity].
 Qed.
 
-Theorem lincomb_fuel_correct (r : regime) a b (i1 i2 io : nat) (s : store T) :
+Theorem lincomb_fuel_correct (r : regime) (bi : blasinfo) a b (i1 i2 io : nat) (s : store T) :
+  bi_ok r bi ->
   length (s i1) = length (s i2) -> length (s io) = length (s i1) ->
   post idc a i1 b i2 io s
-    (lincomb_fuel 2 idc r {| e_a := a; e_b := b; e_x1 := i1; e_x2 := i2; e_out := io |} s).
+    (lincomb_fuel 2 idc r bi {| e_a := a; e_b := b; e_x1 := i1; e_x2 := i2; e_out := io |} s).
 Proof.
-  intros L12 Lo.
+  intros Hbi L12 Lo.
   destruct r.
   - apply direct_exact. exact L12.
   - destruct (Nat.eq_dec i1 i2) as [E12 | N12];
       [destruct (neqb b nzero) eqn:Eb; [apply nf_eqb in Eb | apply neqb_false in Eb] |].
-    + change (post idc a i1 b i2 io s (exec_list (lincomb_fuel 1 idc Fallback) Fallback
+    + change (post idc a i1 b i2 io s (exec_list (lincomb_fuel 1 idc Fallback bi) Fallback bi
               {| e_a := a; e_b := b; e_x1 := i1; e_x2 := i2; e_out := io |} alias_tree s)).
       apply tree_no_rec; try assumption; [congruence | tauto].
     + subst i2.
-      change (post idc a i1 b i1 io s (exec_list (lincomb_fuel 1 idc Fallback) Fallback
+      change (post idc a i1 b i1 io s (exec_list (lincomb_fuel 1 idc Fallback bi) Fallback bi
               {| e_a := a; e_b := b; e_x1 := i1; e_x2 := i1; e_out := io |} alias_tree s)).
       rewrite tree_rec by exact Eb.
-      change (lincomb_fuel 1 idc Fallback ?e s) with (exec_list (lincomb_fuel 0 idc Fallback) Fallback e alias_tree s).
-      pose proof (tree_no_rec (lincomb_fuel 0 idc Fallback) Fallback (a + b) (of_Z 0) i1 i1 io s) as P.
-      destruct (exec_list _ Fallback _ alias_tree s) as [s' | | |]; cbn [bind post] in *.
+      change (lincomb_fuel 1 idc Fallback bi ?e s) with (exec_list (lincomb_fuel 0 idc Fallback bi) Fallback bi e alias_tree s).
+      pose proof (tree_no_rec (lincomb_fuel 0 idc Fallback bi) Fallback bi (a + b) (of_Z 0) i1 i1 io s) as P.
+      destruct (exec_list _ Fallback bi _ alias_tree s) as [s' | | |]; cbn [bind post] in *.
       * rewrite vlin_merge in P. apply P; try assumption; [congruence |].
         intros [_ Hz]. apply Hz. apply nf_of0.
       * apply P; try assumption; [congruence | intros [_ Hz]; apply Hz; apply nf_of0].
       * apply P; try assumption; [congruence | intros [_ Hz]; apply Hz; apply nf_of0].
       * apply P; try assumption; [congruence | intros [_ Hz]; apply Hz; apply nf_of0].
-    + change (post idc a i1 b i2 io s (exec_list (lincomb_fuel 1 idc Fallback) Fallback
+    + change (post idc a i1 b i2 io s (exec_list (lincomb_fuel 1 idc Fallback bi) Fallback bi
               {| e_a := a; e_b := b; e_x1 := i1; e_x2 := i2; e_out := io |} alias_tree s)).
       apply tree_no_rec; try assumption; [congruence | tauto].
   - destruct (Nat.eq_dec i1 i2) as [E12 | N12];
       [destruct (neqb b nzero) eqn:Eb; [apply nf_eqb in Eb | apply neqb_false in Eb] |].
-    + change (post idc a i1 b i2 io s (exec_list (lincomb_fuel 1 idc Blas) Blas
+    + change (post idc a i1 b i2 io s (exec_list (lincomb_fuel 1 idc Blas bi) Blas bi
               {| e_a := a; e_b := b; e_x1 := i1; e_x2 := i2; e_out := io |} alias_tree s)).
       apply tree_no_rec; try assumption; [congruence | tauto].
     + subst i2.
-      change (post idc a i1 b i1 io s (exec_list (lincomb_fuel 1 idc Blas) Blas
+      change (post idc a i1 b i1 io s (exec_list (lincomb_fuel 1 idc Blas bi) Blas bi
               {| e_a := a; e_b := b; e_x1 := i1; e_x2 := i1; e_out := io |} alias_tree s)).
       rewrite tree_rec by exact Eb.
-      change (lincomb_fuel 1 idc Blas ?e s) with (exec_list (lincomb_fuel 0 idc Blas) Blas e alias_tree s).
-      pose proof (tree_no_rec (lincomb_fuel 0 idc Blas) Blas (a + b) (of_Z 0) i1 i1 io s) as P.
-      destruct (exec_list _ Blas _ alias_tree s) as [s' | | |]; cbn [bind post] in *.
+      change (lincomb_fuel 1 idc Blas bi ?e s) with (exec_list (lincomb_fuel 0 idc Blas bi) Blas bi e alias_tree s).
+      pose proof (tree_no_rec (lincomb_fuel 0 idc Blas bi) Blas bi (a + b) (of_Z 0) i1 i1 io s) as P.
+      destruct (exec_list _ Blas bi _ alias_tree s) as [s' | | |]; cbn [bind post] in *.
       * rewrite vlin_merge in P. apply P; try assumption; [congruence |].
         intros [_ Hz]. apply Hz. apply nf_of0.
       * apply P; try assumption; [congruence | intros [_ Hz]; apply Hz; apply nf_of0].
       * apply P; try assumption; [congruence | intros [_ Hz]; apply Hz; apply nf_of0].
       * apply P; try assumption; [congruence | intros [_ Hz]; apply Hz; apply nf_of0].
-    + change (post idc a i1 b i2 io s (exec_list (lincomb_fuel 1 idc Blas) Blas
+    + change (post idc a i1 b i2 io s (exec_list (lincomb_fuel 1 idc Blas bi) Blas bi
               {| e_a := a; e_b := b; e_x1 := i1; e_x2 := i2; e_out := io |} alias_tree s)).
       apply tree_no_rec; try assumption; [congruence | tauto].
 Qed.
@@ -282,29 +286,46 @@ Lemma post_ok {T} `{Num T} cast a i1 b i2 io (s : store T) o :
   exists s', o = Ok s' /\ s' io = map cast (vlin a (s i1) b (s i2)) /\ forall j, j <> io -> s' j = s j.
 Proof. destruct o as [s' | | |]; cbn; [eauto | tauto | tauto | tauto]. Qed.
 
+(* the regenerated dispatch sends a call to the BLAS branch only if BLAS updates out in place:
+   depends on regime_of, blas_applicable (_blas_is_applicable) and blas_ravel_order *)
+Lemma blas_regime_sound (size : Z) (fl bdt : bool) (f1 f2 fo : bool * bool) :
+  regime_of size fl (blas_applicable true bdt size [f1; f2; fo]) = Blas ->
+  bi_view (@blas_info bdt [f1; f2; fo]) = true /\ bi_call (@blas_info bdt [f1; f2; fo]) = true.
+Proof.
+  unfold regime_of, blas_applicable, blas_info, blas_ravel_order.
+  destruct f1 as [c1 g1], f2 as [c2 g2], fo as [co go].
+  cbn [nth forallb existsb fst snd bi_view bi_call].
+  destruct (size <? threshold_small)%Z, (size <? threshold_medium)%Z, (size >? 2147483647)%Z,
+    fl, bdt, c1, g1, c2, g2, co, go; cbn; intros E; try discriminate E; auto.
+Qed.
+
 Lemma lincomb_impl_correct {T} {N : Num T} {F : NumField T}
-      (fl bo : bool) (a b : T) (i1 i2 io : nat) (s : store T) :
+      (fl bdt : bool) (f1 f2 fo : bool * bool) (a b : T) (i1 i2 io : nat) (s : store T) :
   length (s i1) = length (s i2) -> length (s io) = length (s i1) ->
-  exists s', lincomb_impl (fun u => u) fl bo a i1 b i2 io s = Ok s'
+  exists s', lincomb_impl (fun u => u) fl bdt [f1; f2; fo] a i1 b i2 io s = Ok s'
           /\ s' io = vlin a (s i1) b (s i2)
           /\ forall j, j <> io -> s' j = s j.
 Proof.
   intros L12 Lo. unfold lincomb_impl.
+  set (r := regime_of _ fl _).
+  assert (Hbi : bi_ok r (blas_info bdt [f1; f2; fo])).
+  { intros Er. apply (blas_regime_sound (Z.of_nat (length (s i1))) fl bdt f1 f2 fo). exact Er. }
   destruct (post_ok _ _ _ _ _ _ _ _
-              (lincomb_fuel_correct (regime_of (Z.of_nat (length (s i1))) fl bo) a b i1 i2 io s L12 Lo))
+              (lincomb_fuel_correct r (blas_info bdt [f1; f2; fo]) a b i1 i2 io s Hbi L12 Lo))
     as (s' & E & Hout & Hfr).
   exists s'. rewrite map_id in Hout. auto.
 Qed.
 
 (* integer (or any) dtype: only the direct regime is used when the dtype is not floating *)
-Lemma lincomb_impl_nonfloating {T} `{Num T} (cast : T -> T) (bo : bool) (a b : T) (i1 i2 io : nat) (s : store T) :
+Lemma lincomb_impl_nonfloating {T} `{Num T} (cast : T -> T) (bdt : bool) (flags : list (bool * bool))
+      (a b : T) (i1 i2 io : nat) (s : store T) :
   length (s i1) = length (s i2) ->
-  exists s', lincomb_impl cast false bo a i1 b i2 io s = Ok s'
+  exists s', lincomb_impl cast false bdt flags a i1 b i2 io s = Ok s'
           /\ s' io = map cast (vlin a (s i1) b (s i2))
           /\ forall j, j <> io -> s' j = s j.
 Proof.
   intros L12. unfold lincomb_impl.
-  assert (E : regime_of (Z.of_nat (length (s i1))) false bo = Direct).
-  { unfold regime_of. cbn [negb]. rewrite orb_true_r. reflexivity. }
+  assert (E : forall bo, regime_of (Z.of_nat (length (s i1))) false bo = Direct).
+  { intros bo. unfold regime_of. cbn [negb]. rewrite orb_true_r. reflexivity. }
   rewrite E. apply post_ok. apply direct_exact. exact L12.
 Qed.
